@@ -89,8 +89,8 @@ Transpose2(d, a) ==
   /\ Put(d, TransposeSem(Value(a))) /\ UNCHANGED objs
 Submatrix2(d, a, lr, lc, hr, hc) ==
   /\ Live(d) /\ Live(a) /\ lr < hr /\ lc < hc /\ hr <= Dm(a) /\ hc <= Dn(a)
-  /\ Dm(d) = hr - lr /\ Dn(d) = hc - lc /\ Disjoint(d, a)
-  /\ Put(d, SubmatrixSem(Value(a), lr, lc, hr, hc)) /\ UNCHANGED objs
+  /\ Dm(d) >= hr - lr /\ Dn(d) >= hc - lc /\ Disjoint(d, a)        \* a larger destination keeps what lies outside the block
+  /\ Put(d, CopySem(Value(d), SubmatrixSem(Value(a), lr, lc, hr, hc))) /\ UNCHANGED objs
 Concat3(d, a, b) ==
   /\ Live(d) /\ Live(a) /\ Live(b) /\ Dm(a) = Dm(b)
   /\ Dm(d) = Dm(a) /\ Dn(d) = Dn(a) + Dn(b) /\ Disjoint(d, a) /\ Disjoint(d, b)
